@@ -404,7 +404,12 @@ class ShardOut:
     def merge(self, o):
         self.vios += o.vios
         for k, v in o.stats.items():
-            self.stats[k] = self.stats.get(k, 0) + v
+            if k.endswith('_max') or k.endswith('_bytes'):
+                self.stats[k] = max(self.stats.get(k, 0), v)
+            elif isinstance(v, (int, float)):
+                self.stats[k] = self.stats.get(k, 0) + v
+            else:
+                self.stats[k] = v
         for s in o.samples:
             if len(self.samples) < 10:
                 self.samples.append(s)
